@@ -130,7 +130,7 @@ type vC02NObs struct {
 	Err    string         `json:"err,omitempty"`
 }
 
-const vc02SyncTimeout = 40 * time.Second // positive expectation; normally about one RebroadcastInterval (400 ms)
+const vc02SyncTimeout = 25 * time.Second // positive expectation; normally about one RebroadcastInterval (400 ms)
 
 var vc02NetSeq int64
 
